@@ -9,6 +9,7 @@ CONSTANT RoleMenu <- RMa
 CONSTANT DocMenu <- DMr
 CONSTANT Lims <- L0
 CONSTANT MaxSteps = 6
+CONSTANT Thin = 1
 CONSTANT PageGap = FALSE
 SPECIFICATION Spec
 VIEW view
